@@ -44,8 +44,14 @@ Lemma refuted_not_or_arity : exists ks mb, refutes CNotOrArity ks mb.
 Proof. witness [KNot (KHeader (S_ "Subject") (S_ "hello"))]. Qed.
 Lemma refuted_unknown_key : exists ks mb, refutes CUnknownKey ks mb.
 Proof. witness [KUnknown (S_ "FOO")]. Qed.
-Lemma refuted_substring_flag : exists ks mb, refutes CSubstringFlag ks mb.
-Proof. witness [KKeyword (S_ "foo")]. Qed.
+(** regression (fix 378938d): flags used to be tested with strings.Contains on
+    the flag string, so KEYWORD foo matched a message flagged foobar; hasFlag
+    compares whole flags and the former witness now meets the specification *)
+Lemma substring_flag_repaired :
+  contains (S_ "\Seen foobar") (S_ "foo") = true /\ has_flag_go (S_ "\Seen foobar") (S_ "foo") = false
+  /\ wf_prog [KKeyword (S_ "foo")] = true /\ classify_line [KKeyword (S_ "foo")] wit_mb = None
+  /\ reply_ok (search_line [KKeyword (S_ "foo")] wit_mb) (spec_search [KKeyword (S_ "foo")] wit_mb) = true.
+Proof. vm_compute. repeat split; reflexivity. Qed.
 Lemma refuted_text_atom_repeated_field : exists ks mb, refutes CTextAtom ks mb.
 Proof. witness [KHeader (S_ "X-A") (S_ "et")]. Qed.
 Lemma refuted_text_atom_sent_date : exists ks mb, refutes CTextAtom ks mb.
